@@ -224,6 +224,10 @@ impl BlockData {
         }
 
         match self.last_slice {
+            // a slice beyond the one now declared last was seen earlier: contradictory markers
+            None if is_last && self.commitment_cache.keys().any(|&ind| ind > slice_index) => {
+                return Err(AddShredError::Equivocation);
+            }
             None if is_last => self.mark_last_slice(slice_index),
             None => {}
             Some(l) => {
